@@ -215,6 +215,8 @@ func TestVerifKeystore(t *testing.T) {
 				continue
 			}
 			mutated := vksMutate(stored, &c)
+			mutatedBefore := append([]byte{}, mutated...)
+			storedBefore := append([]byte{}, stored...)
 			// ---- decrypt
 			pm = vTry(func() {
 				switch api {
@@ -278,6 +280,37 @@ func TestVerifKeystore(t *testing.T) {
 				}
 			default:
 				t.Fatalf("VERIF-INFRA unknown verdict %q", c.Res.Verdict)
+			}
+			// ---- the STORED ciphertext stays what it was: an attempt (failed or not) neither
+			// ---- changes the bytes it was given nor the stored bytes, and the stored ciphertext
+			// ---- still decrypts to the same key with the same password, every time
+			if api != "file" {
+				res.Cmp()
+				if !bytes.Equal(mutated, mutatedBefore) || !bytes.Equal(stored, storedBefore) {
+					fail("ciphertext", "unchanged by Decrypt", "overwritten", "ciphertext-overwritten")
+					stored = append([]byte{}, storedBefore...)
+				}
+				for rep := 0; rep < 2; rep++ {
+					var again []byte
+					var err error
+					buf := stored // same stored buffer both times
+					pm := vTry(func() {
+						if api == "raw" {
+							again, err = Decrypt(buf, pw)
+						} else {
+							var k crypto.PrivateKey
+							k, err = DecryptPrivateKey(buf, pw, c.O.Scheme)
+							if k != nil && err == nil {
+								again = k.Encode()
+							}
+						}
+					})
+					res.Cmp()
+					if pm != "" || err != nil || !bytes.Equal(again, want) {
+						fail("redecrypt", "the key, again", fmt.Sprintf("attempt %d: err=%v panic=%q key=%s", rep+1, err, pm, vHex(again)), "stored-ciphertext-no-longer-decrypts")
+						break
+					}
+				}
 			}
 		}
 	}
